@@ -33,6 +33,7 @@ func c17(c *Ctx) {
 	c17EncoderWholeValue(c)
 	c17RequestBodyWhole(c)
 	releasedMemoryNotRetained(c, "released-memory-not-retained", "the reply one client is still being sent is re-encoded with another client's version, request id, charset and language", "services/ipp", "services/decoder")
+	c17NoSignExtension(c, "services/decoder")
 }
 
 func c17Decoder(c *Ctx) {
@@ -46,6 +47,28 @@ func c17Decoder(c *Ctx) {
 	fidx := map[string]int{}
 	for i := 0; i < st.NumFields(); i++ {
 		fidx[st.Field(i).Name()] = i
+	}
+	// the three fields by role, whatever they are called: the buffer ([]byte), the cursor (int) and the recorded error
+	dataName, offName := "data", "offset"
+	for i := 0; i < st.NumFields(); i++ {
+		switch t := st.Field(i).Type().Underlying().(type) {
+		case *types.Slice:
+			if bt, ok := t.Elem().Underlying().(*types.Basic); ok && bt.Kind() == types.Byte {
+				fidx["data"], dataName = i, st.Field(i).Name()
+			}
+		case *types.Basic:
+			if t.Kind() == types.Int {
+				fidx["offset"], offName = i, st.Field(i).Name()
+			}
+		case *types.Interface:
+			if st.Field(i).Type().String() == "error" {
+				fidx["lasterror"] = i
+			}
+		}
+	}
+	canon := func(s string) string {
+		s = strings.ReplaceAll(s, "p0."+dataName, "p0.data")
+		return strings.ReplaceAll(s, "p0."+offName, "p0.offset")
 	}
 	if !c.Anchor(len(fidx) >= 3, "decoder", "fields offset/data/lasterror") {
 		return
@@ -93,7 +116,7 @@ func c17Decoder(c *Ctx) {
 		}
 		sort.Strings(norm)
 		norm = uniqS(norm)
-		okSum = strings.Join(norm, " && ") == "(p0.offset + p1) <= len(p0.data) && (p0.offset + p1) >= 0"
+		okSum = canon(strings.Join(norm, " && ")) == "(p0.offset + p1) <= len(p0.data) && (p0.offset + p1) >= 0"
 		c.Check(okSum, "hasbytes-summary", "HasBytes returns nil iff", p.InstrPos(nilRet[0]), got, "HasBytes' nil return is not guarded exactly by 0 <= offset+size <= len(data): "+got)
 	} else {
 		c.Violate("hasbytes-summary", "HasBytes shape", p.Pos(hb.Pos()), "HasBytes is not a pure predicate with a single nil return")
@@ -361,13 +384,13 @@ func c17Decoder(c *Ctx) {
 			for _, in := range b.Instrs {
 				switch x := in.(type) {
 				case *ssa.Slice:
-					if _, ok := isFieldLoadNamed(x.X, "data"); ok && x.Low != nil && x.High != nil {
-						lo, hi := Render(x.Low), Render(x.High)
+					if _, ok := isFieldLoadNamed(x.X, dataName); ok && x.Low != nil && x.High != nil {
+						lo, hi := canon(Render(x.Low)), canon(Render(x.High))
 						c.Check(lo == "p0.offset" && hi == "(p0.offset + "+size+")", "decoder-reads-at-cursor", name+" slice", p.InstrPos(x), "reads data[offset:offset+"+size+"]", name+" reads data["+lo+":"+hi+"] instead of the "+size+" byte(s) at the cursor")
 					}
 				case *ssa.IndexAddr:
-					if _, ok := isFieldLoadNamed(x.X, "data"); ok {
-						c.Check(Render(x.Index) == "p0.offset" && size == "1", "decoder-reads-at-cursor", name+" index", p.InstrPos(x), "reads data[offset]", name+" reads data["+Render(x.Index)+"] instead of the byte at the cursor")
+					if _, ok := isFieldLoadNamed(x.X, dataName); ok {
+						c.Check(canon(Render(x.Index)) == "p0.offset" && size == "1", "decoder-reads-at-cursor", name+" index", p.InstrPos(x), "reads data[offset]", name+" reads data["+Render(x.Index)+"] instead of the byte at the cursor")
 					}
 				}
 			}
